@@ -22,6 +22,9 @@ EXC_PARENT = {
     'AssertionError': 'Exception', 'OtherException': 'Exception', 'DuplicateTestIDError': 'Exception',
     'Empty': 'Exception', 'UnsupportedOperation': 'OSError', 'ImportError': 'Exception',
     'NameError': 'Exception', 'UnexpectedSuccess': 'Exception', 'ZeroDivisionError': 'Exception',
+    'SubprocessError': 'Exception', 'CalledProcessError': 'SubprocessError', 'TimeoutExpired': 'SubprocessError',
+    'RecursionError': 'RuntimeError', 'UnicodeError': 'ValueError', 'UnicodeEncodeError': 'UnicodeError',
+    'ArithmeticError': 'Exception', 'EOFError': 'Exception', 'BrokenPipeError': 'OSError',
 }
 
 
@@ -91,6 +94,7 @@ class EngineBase:
         self.iter_sorts = {}      # sort -> callable(engine, st, obj) -> list VRef (iteration sequence)
         self.unpack_sorts = {}    # sort -> callable(engine, st, obj) -> VTup (tuple unpacking of an abstract object)
         self.callable_sorts = {}  # sort -> callable(engine, st, fobj, args) -> Val
+        self.objmethods = {}      # (sort, method name) -> handler(engine, st, recv, node, args, kws, k): method of an abstract object
         self.member_sorts = {}    # sort -> callable(engine, st, container obj, x) -> z3 Bool  (``x in obj``)
         self.entry_fid = None
         self.cur_loops = []
